@@ -288,6 +288,8 @@ pub fn cases(prop: &str, tier: Tier, seed: u64) -> Vec<CaseDesc> {
             // imports added through the API in front of named local entities
             out.extend(with_scenario(crate::gen::gen_specs("names", seed ^ 0xadd1, if q { 1200 } else { 40_000 }), "rt:addimp"));
             out.extend(with_scenario(corpus::gcedge_specs(), "rt:addimp"));
+            // gc, then an edit that starts using named locals no body mentioned, then emit
+            out.extend(with_scenario(crate::gen::gen_specs("names", seed ^ 0x05e1, if q { 900 } else { 30_000 }), "rt:emit,gc,onparse,uselocal"));
             // function replacement (the C18 operations): the original keeps its name, nothing migrates
             out.extend(with_scenario(crate::gen::gen_specs("names", seed ^ 0x4e9, if q { 900 } else { 30_000 }), "replace"));
             // synthetic names switched on: the names the input gives must still win
